@@ -568,23 +568,44 @@ var bvLitRe = regexp.MustCompile(`\(_ bv([0-9]+) ([0-9]+)\)`)
 // bridgePrelude declares the conversion functions used in body and their axioms.
 func bridgePrelude(body string) string {
 	var sb strings.Builder
-	for _, w := range []int{8, 16, 32, 64} {
-		b2i := fmt.Sprintf("b2i_%d", w)
-		i2b := fmt.Sprintf("i2b_%d", w)
-		if !strings.Contains(body, "("+b2i+" ") && !strings.Contains(body, "("+i2b+" ") {
+	widths := []int{8, 16, 32, 64}
+	used := map[int]bool{}
+	any := false
+	for _, w := range widths {
+		if strings.Contains(body, fmt.Sprintf("(b2i_%d ", w)) || strings.Contains(body, fmt.Sprintf("(i2b_%d ", w)) {
+			used[w] = true
+			any = true
+		}
+	}
+	if !any {
+		return ""
+	}
+	// widening conversions between bridged widths: declare both ends
+	hasZext := strings.Contains(body, "(_ zero_extend ")
+	if hasZext {
+		for _, w := range widths {
+			for _, w2 := range widths {
+				if w < w2 && (used[w] || used[w2]) && strings.Contains(body, fmt.Sprintf("((_ zero_extend %d) ", w2-w)) {
+					used[w], used[w2] = true, true
+				}
+			}
+		}
+	}
+	for _, w := range widths {
+		if !used[w] {
 			continue
 		}
+		b2i := fmt.Sprintf("b2i_%d", w)
+		i2b := fmt.Sprintf("i2b_%d", w)
 		srt := BVSort(w)
 		lim := new(big.Int).Lsh(big.NewInt(1), uint(w)).String()
 		fmt.Fprintf(&sb, "(declare-fun %s (%s) Int)\n(declare-fun %s (Int) %s)\n", b2i, srt, i2b, srt)
 		fmt.Fprintf(&sb, "(assert (forall ((x %s)) (! (and (<= 0 (%s x)) (< (%s x) %s) (= (%s (%s x)) x)) :pattern ((%s x)))))\n", srt, b2i, b2i, lim, i2b, b2i, b2i)
 		fmt.Fprintf(&sb, "(assert (forall ((i Int)) (! (= (%s (%s i)) (mod i %s)) :pattern ((%s (%s i))))))\n", b2i, i2b, lim, b2i, i2b)
 		fmt.Fprintf(&sb, "(assert (forall ((x %s) (y %s)) (! (= (bvult x y) (< (%s x) (%s y))) :pattern ((%s x) (%s y)))))\n", srt, srt, b2i, b2i, b2i, b2i)
-		if strings.Contains(body, "("+i2b+" ") {
-			for _, op := range [][2]string{{"bvsub", "-"}, {"bvadd", "+"}} {
-				fmt.Fprintf(&sb, "(assert (forall ((a Int) (b Int)) (! (= (%s (%s a) (%s b)) (%s (%s a b))) :pattern ((%s (%s a) (%s b))))))\n",
-					op[0], i2b, i2b, i2b, op[1], op[0], i2b, i2b)
-			}
+		for _, op := range [][2]string{{"bvsub", "-"}, {"bvadd", "+"}} {
+			fmt.Fprintf(&sb, "(assert (forall ((a Int) (b Int)) (! (= (%s (%s a) (%s b)) (%s (%s a b))) :pattern ((%s (%s a) (%s b))))))\n",
+				op[0], i2b, i2b, i2b, op[1], op[0], i2b, i2b)
 		}
 		seen := map[string]bool{}
 		for _, m := range bvLitRe.FindAllStringSubmatch(body, -1) {
@@ -593,13 +614,22 @@ func bridgePrelude(body string) string {
 			}
 			seen[m[1]] = true
 			fmt.Fprintf(&sb, "(assert (= (%s (_ bv%s %d)) %s))\n", b2i, m[1], w, m[1])
-			if strings.Contains(body, "("+i2b+" ") {
-				fmt.Fprintf(&sb, "(assert (= (%s %s) (_ bv%s %d)))\n", i2b, m[1], m[1], w)
-			}
+			fmt.Fprintf(&sb, "(assert (= (%s %s) (_ bv%s %d)))\n", i2b, m[1], m[1], w)
 		}
 		for _, v := range []string{"0", "1"} {
 			if !seen[v] {
 				fmt.Fprintf(&sb, "(assert (= (%s (_ bv%s %d)) %s))\n", b2i, v, w, v)
+			}
+		}
+	}
+	// zero extension keeps the unsigned value
+	if hasZext {
+		for _, w := range widths {
+			for _, w2 := range widths {
+				if w < w2 && used[w] && used[w2] && strings.Contains(body, fmt.Sprintf("((_ zero_extend %d) ", w2-w)) {
+					fmt.Fprintf(&sb, "(assert (forall ((x %s)) (! (= (b2i_%d ((_ zero_extend %d) x)) (b2i_%d x)) :pattern (((_ zero_extend %d) x)))))\n",
+						BVSort(w), w2, w2-w, w, w2-w)
+				}
 			}
 		}
 	}
